@@ -267,8 +267,90 @@ def run_case(case, order, tmp, want):
     return r
 
 
+def file_ops(d, ops, order):
+    """run is_valid_neuroml2 / validate_neuroml2 / load on files of directory d, in this process, in the given order"""
+    from neuroml.utils import is_valid_neuroml2, validate_neuroml2
+    out = []
+    install_recorder()
+    for fn, name in ops:
+        path = os.path.join(d, name)
+        try:
+            if fn == "is_valid":
+                out.append(bool(is_valid_neuroml2(path)))
+            elif fn == "validate":
+                try:
+                    validate_neuroml2(path)
+                    out.append("no exception")
+                except ValueError:
+                    out.append("ValueError")
+            elif fn == "load":
+                from neuroml import loaders
+                doc = loaders.read_neuroml2_file(path, include_includes=True, verbose=False, optimized=True, already_included=[])
+                out.append({"obj": dump(doc, order), "rec": run_validate(doc, True), "nonrec": run_validate(doc, False)})
+        except BaseException as e:  # noqa  (the loader calls sys.exit() on a missing file)
+            out.append("raised:" + type(e).__name__)
+    return out
+
+
+def sub_ops(d, ops, order_file):
+    """the same in a fresh python process"""
+    import subprocess
+    p = subprocess.run([sys.executable, os.path.abspath(__file__), "--ops", d, json.dumps(ops), order_file],
+                       capture_output=True, text=True, timeout=300)
+    lines = [l for l in p.stdout.splitlines() if l.startswith("@@")]
+    if p.returncode != 0 or not lines:
+        return ["subprocess failed: " + p.stderr[-300:]] * len(ops)
+    return json.loads(lines[-1][2:])
+
+
+def file_history(P):
+    """verdicts of is_valid_neuroml2 / validate_neuroml2 over files with includes: sequences of calls in ONE process
+    against the verdict each file gets in a fresh process"""
+    from concurrent.futures import ThreadPoolExecutor
+    from neuroml.writers import NeuroMLWriter
+    res = []
+    for sc in P["scenarios"]:
+        d = tempfile.mkdtemp(prefix="verif_c03_files_")
+        try:
+            for name, tree in sc["files"].items():
+                NeuroMLWriter.write(construct(tree), os.path.join(d, name))
+            of = os.path.join(d, "order.json")
+            json.dump(P["order"], open(of, "w"))
+            files = sorted(sc["files"])
+            jobs = [("seq", i, seq) for i, seq in enumerate(sc["sequences"])] + \
+                   [("fresh", f, [["is_valid", f], ["validate", f]]) for f in files] + \
+                   [("load", f, [["load", f]]) for f in files]
+            with ThreadPoolExecutor(max_workers=8) as ex:
+                outs = list(ex.map(lambda j: sub_ops(d, j[2], of), jobs))
+            r = {"sequences": [], "fresh": {}, "loaded": {}}
+            for (kind, key, ops), o in zip(jobs, outs):
+                if kind == "seq":
+                    r["sequences"].append([[fn, f, v] for (fn, f), v in zip(ops, o)])
+                elif kind == "fresh":
+                    r["fresh"][key] = {"is_valid": o[0], "validate": o[1]}
+                else:
+                    r["loaded"][key] = o[0]
+            res.append(r)
+        except Exception as e:  # noqa
+            res.append({"err": type(e).__name__ + ": " + str(e)[:300]})
+        finally:
+            shutil.rmtree(d, ignore_errors=True)
+    print(json.dumps({"results": res}))
+
+
 def main():
+    if len(sys.argv) > 1 and sys.argv[1] == "--ops":
+        real_stdout = sys.stdout
+        sys.stdout = io.StringIO()
+        try:
+            out = file_ops(sys.argv[2], json.loads(sys.argv[3]), json.load(open(sys.argv[4])))
+        finally:
+            sys.stdout = real_stdout
+        print("@@" + json.dumps(out))
+        return
     P = json.load(sys.stdin)
+    if P.get("mode") == "filehistory":
+        return file_history(P)
     order = P["order"]
     want = P.get("want", ["rec", "nonrec"])
     tmp = tempfile.mkdtemp(prefix="verif_c03_")
